@@ -45,7 +45,7 @@ class Gen:
                 body = self.body(depth + 1, in_rule and not excl_rule, in_media)
                 out.append(S("atroot", query=qt, q=q, body=body))
             elif in_rule and k < 96:
-                out.append(S("nested", prop=rng.choice(["font", "m"]), body=[self.nested_decl(depth) for _ in range(rng.range(1, 2))]))
+                out.append(S("nested", prop=rng.choice(["font", "m"]), body=[self.nested_decl(depth) for _ in range(rng.range(1, 3))]))
             elif in_rule:
                 out.append(self.decl())
             else:
@@ -53,8 +53,8 @@ class Gen:
         return out
 
     def nested_decl(self, depth):
-        if depth < 3 and self.rng.chance(0.2):
-            return S("nested", prop=self.rng.choice(["x", "y"]), body=[self.decl()])
+        if depth < 3 and self.rng.chance(0.35):
+            return S("nested", prop=self.rng.choice(["x", "y"]), body=[self.decl() for _ in range(self.rng.range(1, 2))])
         return self.decl()
 
 
